@@ -2,7 +2,7 @@
 
 Theorems: coq/Properties/C18.v over coq/Model/Serial.v (+ the exception table that the
 translator T5, harness/t5_errors.py, regenerates from /repo into coq/Gen/ErrorsTable.v).
-Correspondence K: coq/Model/SerialRun.v (`c18_ok`, `useq_ok`), evaluated inside Coq.
+Correspondence K: coq/Model/SerialRun.v (`c18_ok`, `uhist_ok`), evaluated inside Coq.
 Oracles (this file) decide the property statement on the real objects:
   * pickle protocols 0-5, copy, deepcopy, from_tuple(to_tuple()) of quantities / units /
     measurements / UnitsContainer / ParserHelper  -> canonical equality incl. exponent types,
@@ -125,6 +125,17 @@ def base_probe(obj):
         return {"m": m, "u": sorted((k, float(v)) for k, v in b._units._d.items())}
     except Exception as e:
         return {"err": type(e).__name__}
+
+
+def render(obj):
+    """abbreviated renderings: they look up the DEFINITION of every unit the object mentions"""
+    out = []
+    for spec in ("~", "~P"):
+        try:
+            out.append(format(obj if kind_of(obj) != "Measurement" else obj.units, spec))
+        except Exception as e:
+            out.append("!" + type(e).__name__)
+    return out
 
 
 def registry_snapshot(reg):
@@ -900,12 +911,44 @@ def part_subprocess(R, pools, objs):
         for s in rng.sample(specials, rng.randint(3, len(specials)) if c else len(specials)):
             items.insert(rng.randrange(1 if c == 0 else 0, len(items) + 1), s)
         blobs, meta = [], []
+        # odd children: the application registry has a HISTORY -- a unit-redefining context is entered and
+        # left between unpicklings, prefixed names are parsed inside it, and what was unpickled inside is
+        # unpickled again outside
+        hist = (c % 2 == 1)
+        inside, met_inside = False, []
         for j, x in enumerate(items):
+            if hist and rng.random() < 0.22:
+                ev = ("leave",) if inside else ("enter",)
+                inside = not inside
+                blobs.append((len(blobs), ev))
+                meta.append((None, ev))
+                if not inside and met_inside:          # just left: replay what was first met inside
+                    for y in met_inside[-4:]:
+                        p = rng.randrange(6)
+                        blobs.append((len(blobs), pickle.dumps(y, p)))
+                        meta.append((y, p))
+                    met_inside = []
+            if hist and inside and rng.random() < 0.3:
+                nm = fpool.name(rng, True)
+                blobs.append((len(blobs), ("parse", nm)))
+                meta.append((None, ("parse", nm)))
+                y = fpool.reg.Quantity(rng.choice([3, 2.5]), fpool.reg.UnitsContainer({nm: 1}))
+                fpool.reg.parse_units(nm)
+                met_inside.append(y)
             protos = range(6) if (j % 9 == 0) else [rng.randrange(6)]
             for p in protos:
                 blobs.append((len(blobs), pickle.dumps(x, p)))
                 meta.append((x, p))
-        jobs.append({"snapshot": True, "convert": True, "blobs": blobs})
+            if inside:
+                met_inside.append(x)
+        if inside:
+            blobs.append((len(blobs), ("leave",)))
+            meta.append((None, ("leave",)))
+            for y in met_inside[-6:]:
+                p = rng.randrange(6)
+                blobs.append((len(blobs), pickle.dumps(y, p)))
+                meta.append((y, p))
+        jobs.append({"snapshot": True, "convert": True, "blobs": blobs, "contexts": hist})
         metas.append(meta)
     tmp = tempfile.mkdtemp(prefix="c18_")
     try:
@@ -932,7 +975,24 @@ def part_subprocess(R, pools, objs):
         if snap0 is None:
             snap0 = snap
         steps = []
+        depth = 0
         for (x, p), st in zip(meta, res["steps"]):
+            if x is None:                      # history event
+                ck.count(f"subprocess:event:{p[0]}")
+                if st["out"] == "other":
+                    R.oracle(False, f"unpickle-history:{p[0]}:raises", f"{p} on the application registry raises {st.get('err')}", {"child": c, "event": p})
+                if p[0] == "enter":
+                    depth += 1
+                    steps.append("UEvEnter")
+                elif p[0] == "leave":
+                    depth -= 1
+                    steps.append(f"(UEvLeave {coq_list([coq_str(n) for n in st['gone']])})")
+                else:
+                    out = {"ok": "OutOk", "offset": "OutOffset", "other": "OutOther"}.get(st["out"])
+                    if st["out"] == "undefined":
+                        out = f"(OutUndefined {coq_str(st['names'][0])})" if len(st["names"]) == 1 else "OutOther"
+                    steps.append(f"(UEvParse {coq_str(p[1])} {out} {coq_list([coq_str(n) for n in st['new']])})")
+                continue
             k = kind_of(x)
             names = list(x._units._d)
             special = any(x is s for s in specials)
@@ -958,9 +1018,16 @@ def part_subprocess(R, pools, objs):
                 # (prefix name + canonical unit name) are keys of the application registry afterwards
                 if not special:
                     R.oracle(not st["missing"], f"pickle-roundtrip:{k}:not-registered",
-                             f"after unpickling in a fresh process the application registry does not define {st['missing']}", rp)
+                             f"after unpickling in a fresh process the application registry does not define {st['missing']}"
+                             + (" (registry history: a unit-redefining context was entered and left before)" if jobs[c].get("contexts") else ""),
+                             dict(rp, history=[m[1] if m[0] is None else ("unpickle", sorted(m[0]._units._d)) for m in meta[:st["id"] + 1]][-12:]))
+                    if x._REGISTRY is fpool.reg:
+                        mine = render(x)
+                        R.oracle(all(a == b or a.startswith("!") for a, b in zip(mine, st["render"])), f"pickle-roundtrip:{k}:rendering",
+                                 f"the unpickled object renders as {st['render']}, the original as {mine}",
+                                 dict(rp, history=[m[1] if m[0] is None else ("unpickle", sorted(m[0]._units._d)) for m in meta[:st["id"] + 1]][-12:]))
                 # every unit it mentions is now usable there: conversion agrees with the parent's
-                if x._REGISTRY is fpool.reg and not special:
+                if x._REGISTRY is fpool.reg and not special and depth == 0:   # (inside c18redef calorie means something else)
                     pb = base_probe(x)
                     cb = st["base"]
                     same = ("err" in pb and "err" in cb) or ("m" in pb and "m" in cb and close(pb["m"], cb["m"])
@@ -984,8 +1051,8 @@ def part_subprocess(R, pools, objs):
             if st["out"] == "undefined":
                 out = f"(OutUndefined {coq_str(st['names'][0])})" if len(st["names"]) == 1 else "OutOther"
             res_obj = coq_obj(x, 0) if st["out"] == "ok" else None
-            steps.append(f"(UStep {xo} {coq_list([coq_str(n) for n in names])} {out} "
-                         f"{coq_list([coq_str(n) for n in st['new']])} {coq_opt(res_obj)})")
+            steps.append(f"(UEvObj (UStep {xo} {coq_list([coq_str(n) for n in names])} {out} "
+                         f"{coq_list([coq_str(n) for n in st['new']])} {coq_opt(res_obj)}))")
             ck.case(key=("unpickle", c, st["id"]), nontrivial=True)
         R.oracle(res["steps"] and res["steps"][0]["out"] == "ok" if c == 0 else True, "pickle-roundtrip:Quantity:fresh-kiloinch",
                  "3 kiloinch/microfortnight does not unpickle in a fresh process", {"child": c})
@@ -1644,7 +1711,7 @@ def run(ck):
         # every child starts from the same tables (checked above), so one header serves all histories
         same = [u for u in useq_cases if u[2] == snap0]
         R.oracle(len(same) == len(useq_cases), "subprocess:initial-registry", "fresh processes start from different default registries", {})
-        r = ck.coq_mismatches("c18_useq", HEADER + coq_app0(snap0), [u[0] for u in same], "(useq_ok app0)", shard=1)
+        r = ck.coq_mismatches("c18_useq", HEADER + coq_app0(snap0), [u[0] for u in same], "(uhist_ok app0)", shard=1)
         bad_u = None if r is None else [(i, same[i][1]) for i in r]
     lap("coq differ (unpickling histories)")
     ck.extra["model_vs_impl_cases"] = len(R.cases) + sum(d["steps"] for _, d, _ in useq_cases)
@@ -1668,7 +1735,7 @@ def run(ck):
         if not [v for v in ck.violations]:
             ck.violation("correspondence-unpickle", "model and implementation disagree on an unpickling history in a fresh process",
                          {"children": [d for _, d in bad_u]}, no_input=True)
-        ck.broken.append(f"correspondence Model.SerialRun.useq_ok: histories {[i for i, _ in bad_u]} disagree")
+        ck.broken.append(f"correspondence Model.SerialRun.uhist_ok: histories {[i for i, _ in bad_u]} disagree")
 
 
 def replay(ck, path):
